@@ -8,13 +8,13 @@ ASSUMPTIONS = []
 EXPLANATION = ("the ownership ledger of the probe element (token issued on construction, retired on destruct) asserted after every mutating step of Table, Tree and Array "
                "from arbitrary valid states: no element finalised twice or never, none duplicated or dropped by internal moves, live tokens = sum of lengths; deep copies share nothing")
 QUICK = (
-    pick("C02", r"table\.(set\.home[024]|rem\.home[14])\.ns5|table\.(del|clearset)\.ns5|table\.init", tiers=("quick",))
+    pick("C02", r"table\.(set\.home[024]|rem\.home[14])\.ns5|table\.(del|clearset)\.ns5|table\.init|table\.assign\.m[12]", tiers=("quick",))
     + pick("C03", r"tree\.(set|rem|clear)\.q[2-5]$", tiers=("quick",))
     + pick("C04", r"array\.(push|pop|rem|resize|sort|del|getset)\.n[23]|array\.(pop|rem)\.n4\+1|array\.(concat|assign)\.n2\+1\.m[12]|array\.(push_at|pop_at)\.n2\+1\.i(0|1|-1)$", tiers=("quick",))
     + pick("C04", r"list\.(push|pop|push_at|pop_at|getset|rem|resize|del)\.n[23]$|list\.(concat|assign)\.n2\.m[12]|list\.bad_index\.n2", tiers=("quick",))
 )
 THOROUGH = (
-    pick("C02", r"table\.(set|rem|del|clearset|rehash|resize)\.", tiers=("thorough",))
+    pick("C02", r"table\.(set|rem|del|clearset|rehash|resize|assign)\.", tiers=("thorough",))
     + pick("C03", r"tree\.(set|rem|clear)\.(q|t)", tiers=("thorough",))
     + pick("C04", r"(array|list)\.(push|pop|push_at|pop_at|getset|rem|concat|resize|sort|assign|del|bad_index)\.", tiers=("thorough",))
 )
